@@ -81,6 +81,9 @@ def check_C12(ctx, rep):
     else:
         got = tf_const_words(c)
         rep.check(math.isnan(got[0]) and math.isnan(got[1]), "R28", "TwoFloat::NAN", "assoc-const:NAN", "TwoFloat::NAN words are (%r, %r), expected both NaN" % got, where=c["span"])
+    # "NAN compares unequal to itself": eq returns false whenever any word is NaN (shared with C06/R12)
+    from . import rules_base
+    rules_base.nan_screen(rep, f, "R28n", only_eq=True)
     for name, sgn in (("INFINITY", 1.0), ("NEG_INFINITY", -1.0)):
         c = assoc_const(f, name)
         if c is None:
